@@ -731,13 +731,36 @@ def array_equal(a, b, equal_nan=False):
         if not builtins.bool(_dim_eq(x, y)):
             return False
     c = cur()
-    idx = [z3.Int(c._name("ae")) for _ in range(a.ndim)]
-    rng = z3.And(*[z3.And(i >= 0, i < _int_term(n)) for i, n in zip(idx, a.shape)])
-    same = core._b(core.eq(a.fn(*[SInt(i) for i in idx]), b.fn(*[SInt(i) for i in idx])))
-    if same is True:
+    # axes with a small concrete extent are enumerated, the others are skolemised
+    import itertools
+    enum_axes = [r for r, n in enumerate(a.shape) if _is_concrete(n) and builtins.int(n) <= 16]
+    sk_axes = [r for r in range(a.ndim) if r not in enum_axes]
+    sk = {r: z3.Int(c._name("ae")) for r in sk_axes}
+    rng = z3.And(*[z3.And(sk[r] >= 0, sk[r] < _int_term(a.shape[r])) for r in sk_axes]) if sk_axes else z3.BoolVal(True)
+    conj = []
+    all_true = True
+    for combo in itertools.product(*[range(builtins.int(a.shape[r])) for r in enum_axes]):
+        idx = [None] * a.ndim
+        for r, v in zip(enum_axes, combo):
+            idx[r] = v
+        for r in sk_axes:
+            idx[r] = SInt(sk[r])
+        same = core._b(core.eq(a.fn(*idx), b.fn(*idx)))
+        if same is True:
+            continue
+        if same is False:
+            if c._check(rng) == z3.sat:
+                return False
+            continue
+        # is a mismatch here possible at all on this path?  (plain skolemisation, no quantifier)
+        if c._check(rng, z3.Not(same)) == z3.unsat:
+            continue
+        all_true = False
+        conj.append(same)
+    if all_true:
         return True
-    body = z3.Implies(rng, core._bt(same))
-    return core.SBool(z3.ForAll(idx, body))
+    body = z3.Implies(rng, z3.And(*conj))
+    return core.SBool(z3.ForAll(list(sk.values()), body) if sk else z3.And(*conj))
 
 
 FUNCTIONS[np.array_equal] = array_equal
